@@ -317,6 +317,11 @@ def r16_4(prog, rep):
         for nd in walk(sh.cfg.resolve(x)):
             if nd.get("k") == "idx" and lv(strip_casts(nd["b"])) == "res":
                 ix = strip_casts(nd["i"])
+                if ix.get("k") == "ref" and ix.get("dk") == "local":        # `const int slot = (nu_y != y) << (nu_y > y); res[slot]`
+                    from ..q import local_decl_init
+                    inits_, other_ = local_decl_init(sh, ix["n"], ix.get("id"))
+                    if other_ == 0 and len(inits_) == 1 and inits_[0] is not None:
+                        ix = strip_casts(sh.cfg.resolve(inits_[0]))
                 names = {r_["n"] for r_ in walk(ix) if r_.get("k") == "ref"}
                 pars = {p_["n"] for p_ in sh.params}
                 yp, yl = sorted(names & pars), sorted(names - pars)
